@@ -4,6 +4,9 @@ Lean: Props/C02.lean — graph level over the regenerated status table (a claim 
 un-held status; a second claim from the same state is refused; between two claims there is a release, for every
 request sequence) and system level (Model/Claims.lean: any number of workers/runners + arbitrary environment
 interleaved at atomic-transition granularity: never two un-killed workers in one body).
+      Props/C02Excl.lean — the in-memory lock table at the level of its steps (lookup, acquire, read, write, leave; any number of
+      threads): mutual exclusion, nothing stale is replaced, no lost update; `Gen/Exclusion.lean` (translate/exclusion.py) ties the
+      shape of `_get_invocation_lock` / `_atomic_status_transition` to it.
 Tie:  the theorems hold *given* that a status transition and a queue pop are atomic steps.  That is explored on the
       real code with real threads under deterministic schedulers: SQLite at SQL-statement granularity, in-memory at
       source-line granularity with a cooperative lock shim.
@@ -31,6 +34,9 @@ THEOREMS = [
     "claim_only_from_available", "second_claim_refused", "claim_preceded_by_release", "claim_claim_has_release",
     "only_owner_moves", "running_exits", "bodyInv_step", "bodyInv_init", "no_double_body",
     "reregistration_changes_nothing", "registration_creates_registered",
+    # Props/C02Excl.lean: the in-memory lock table (shape regenerated from mem_orchestrator.py by translate/exclusion.py)
+    "inv_step", "mutual_exclusion", "write_replaces_what_was_read", "no_lost_update", "check_then_create_lets_two_in",
+    "condition_with_recheck_excludes", "condition_without_recheck_lets_two_in", "code_is_lookup_enter_read_decide_write_leave",
 ]
 
 SQL_PATCH = [
@@ -493,7 +499,14 @@ def reregistration(ctx: Ctx, w: World) -> None:
 
 
 def run(ctx: Ctx) -> None:
-    lean_stage(ctx, tr.gen, THEOREMS)
+    def gen() -> dict[str, str]:
+        from harness.translate import exclusion
+
+        g = tr.gen()
+        g.update(exclusion.gen())
+        return g
+
+    lean_stage(ctx, gen, THEOREMS)
     ctx.cov["rule"] = ("schedules of 2 threads enumerated depth-first with a pre-emption bound (2 quick / 3 thorough), 3-4 threads with seeded "
                        "random priorities; yield points: every SQL statement (SQLite) / every source line of the orchestrator's transition, lock, "
                        "index and broker pop/push functions (in-memory, cooperative lock shim); distinct = distinct (backend, scenario, schedule)")
